@@ -527,6 +527,12 @@ class ExcelCompiler:
                     msg = ''
                 else:
                     msg = 'warning', f'Address {addr} not found in cell_map'
+
+                if ':' in addr and not AddressRange(addr).is_unbounded_range:
+                    # the cells of an input range are inputs as well
+                    for member in flatten(AddressRange(addr).resolve_range):
+                        if member.address in self.cell_map:
+                            walk_dependents(self.cell_map[member.address])
             except nx.exception.NetworkXError as exc:
                 if AddressRange(addr) not in output_addrs:
                     msg = 'error', f'{exc}: which usually means no outputs are dependant on it.'
